@@ -261,6 +261,12 @@ def outToJson : Out → Json
   | .pages ps =>
     Json.mkObj [("pages", Json.arr (ps.map fun (items, lek) =>
       Json.mkObj [("items", Json.arr (items.map itemToJson).toArray), ("lek", itemToJson lek)]).toArray)]
+  | .pagesErr ps err panicCls =>
+    let pj := Json.arr (ps.map fun (items, lek) =>
+      Json.mkObj [("items", Json.arr (items.map itemToJson).toArray), ("lek", itemToJson lek)]).toArray
+    Json.mkObj [("pagesErr", Json.mkObj [("pages", pj), ("error", match err with
+      | some cls => Json.mkObj [("err", Json.str (errClassName cls))]
+      | none => Json.mkObj [("panicErr", Json.str panicCls)])])]
   | .describe d =>
     Json.mkObj [("describe", Json.mkObj [("count", Json.num d.count), ("schema", pairsJ d.schema),
       ("gsi", Json.arr (d.gsi.map indexDescJ).toArray), ("lsi", Json.arr (d.lsi.map indexDescJ).toArray)])]
